@@ -50,6 +50,9 @@ func c01Opts(r *rand.Rand) gen.ProgOpts {
 
 func (c01) Gen(r *rand.Rand, tier string, i int) any {
 	p := gen.RandProgram(r, c01Opts(r))
+	if i%10 == 3 {
+		p = gen.RandClosureProgram(r) // non-linear recursion whose later atoms need facts of later rounds
+	}
 	c := progCase{Prog: p, FactsAsClauses: r.Intn(2) == 0}
 	c.Text = progText(p)
 	return c
